@@ -1,4 +1,4 @@
-import PkgProofs.Lemmas.ReqWf
+import PkgProofs.Lemmas.ReqParsed
 /-!
 # C08 — Requirement parsing decomposes PEP 508 strings faithfully
 
@@ -35,7 +35,7 @@ theorem str_idempotent (r : Requirement) (h : Wf r) : (Req.parse (Req.str r)).to
   simp [h1, Except.toOption, h2]
 
 theorem mkSpecSet_nil : mkSpecSet [] = .ok [] := by
-  simp [mkSpecSet, clauses, splitOn, strip, parseAll, specSet]
+  simp [mkSpecSet, clauses, SSet.clauses, splitOn, strip, parseAll, SSet.parseAll, specSet]
 
 /-! ### 2. A URL and a version list are mutually exclusive -/
 
@@ -180,4 +180,60 @@ recursion budget, `_normalize_extra_values`) returns exactly the requirement's m
 theorem requirement_marker_eq_marker (src : Str) (r : Requirement) (m : List M) (h : Req.parse src = .ok r)
     (hm : r.marker = some m) : ∃ pre text, src = pre ++ 59 :: text ∧ Mk.mkMarker Req.X text = .ok m :=
   marker_eq_marker src r m h hm
+
+/-! ### 8. Every accepted requirement is well formed, hence round-trips -/
+
+/-- **what `Requirement(src)` establishes**: name and extras are identifiers ending in a word character, the extras
+are a set, the members of the specifier set have pairwise different keys and each is a clean clause that parses back
+to itself, a URL excludes clauses and is a non-empty run of non-white-space characters, the marker denotes a formula
+over canonical variable names and operators and is already normalised -/
+theorem parse_wf (src : Str) (r : Requirement) (h : Req.parse src = .ok r) :
+    IdentOK r.name ∧ (∀ e ∈ r.extras, IdentOK e) ∧ r.extras.Nodup ∧ (r.spec.map key).Nodup ∧
+    (∀ sp ∈ r.spec, SSet.roundtrips sp = true ∧ (ckey sp).isSome = true) ∧
+    (∀ u, r.url = some u → UrlOK u ∧ r.spec = []) ∧
+    (∀ m, r.marker = some m → (∃ f, Pep508.formulaOf m = some f) ∧ (∀ a ∈ MkParse.atomsL m, MkWf.VarOpCanon a) ∧
+      ∀ a ∈ MkParse.atomsL m, normAtom Req.X a = a) := by
+  obtain ⟨P, spec, hP, hs, hname, _, hex, hspec, _⟩ := parse_inv src r h
+  obtain ⟨st1, st2, st3, _, he, _, _⟩ := parseSource_inv src P hP
+  refine ⟨?_, ?_, ?_, ?_, ?_, ?_, ?_⟩
+  · rw [hname]; exact name_identOK src P hP
+  · intro e hmem
+    rw [hex, mem_dedup] at hmem
+    exact parseExtras_idents _ _ _ _ he e hmem
+  · rw [hex]; exact nodup_dedup _
+  · obtain ⟨sps, _, rfl⟩ := mkSpecSet_inv _ _ hs
+    rw [hspec]; exact specSet_nodup sps
+  · intro sp hsp
+    rw [hspec] at hsp
+    exact ⟨(members_roundtrip _ _ hs sp hsp).1, ckey_isSome sp⟩
+  · intro u hu
+    obtain ⟨h1, h2, _⟩ := marker_after_url_needs_ws src r u h hu
+    refine ⟨⟨h1, fun x hx => (isUrlChar_iff x).mpr ?_⟩, ?_⟩
+    · have := h2 x hx; omega
+    · rcases url_xor_spec src r h with e | e
+      · rw [e] at hu; cases hu
+      · exact e
+  · intro m hm; exact marker_wf src r m h hm
+
+/-- **every accepted requirement round-trips through its string** (character level): `Requirement(str(r))` succeeds and
+is equal to `r`, with the same hash key and the same string — provided the clauses are found again by the SPECIFIER
+rule (`TokExact`, and their text is free of white space, `;`, `)`) and the marker's literals are written with PEP 508
+string characters (`C09.LitOK`).  Everything else is established by `parse_wf`. -/
+theorem parsed_roundtrip (src : Str) (r : Requirement) (h : Req.parse src = .ok r)
+    (hcl : ∀ sp ∈ r.spec, (∀ x ∈ sp.ver, S.isArbChar x = true) ∧ (sp.op ≠ .arbitrary → TokExact sp.str))
+    (hlit : ∀ m, r.marker = some m → ∀ a ∈ MkParse.atomsL m, C09.LitOK a) :
+    ∃ r', Req.parse (Req.str r) = .ok r' ∧ Req.eq r' r = true ∧ Req.str r' = Req.str r ∧ Req.hashKey r' = Req.hashKey r := by
+  obtain ⟨w1, w2, w3, w4, w5, w6, w7⟩ := parse_wf src r h
+  refine str_roundtrip r ⟨w1, w2, w3, ?_, w4, w6, ?_⟩
+  · intro sp hsp
+    obtain ⟨hrt, hk⟩ := w5 sp hsp
+    obtain ⟨h44, hstrip, hparse⟩ := C05.Roundtrips.unpack hrt
+    refine ⟨⟨?_, hstrip, hparse, (hcl sp hsp).2⟩, hk⟩
+    intro x hx
+    refine ⟨(hcl sp hsp).1 x hx, ?_⟩
+    intro e; subst e
+    exact h44 (by simp [S.Spec.str, hx])
+  · intro m hm
+    obtain ⟨hf, hv, hn⟩ := w7 m hm
+    exact ⟨⟨hf, fun a ha => C09.canonAtom_of a (hv a ha) (hlit m hm a ha)⟩, hn⟩
 end C08
